@@ -861,8 +861,8 @@ def _same_file_fn(fn, name):
     if fn is None:
         return None
     for d in _FILES.values():
-        if d.get("file") == fn.get("_file") and fn in d["_fns"]:
-            cands = [f for f in d["_fns"] if f["name"] == name and f is not fn and not f.get("_test") and f.get("body")]
+        if d.get("file") == fn.get("_file"):
+            cands = [f for f in d["_fns"] if f["name"] == name and f is not fn and not (f["name"] == fn.get("name") and f.get("ln") == fn.get("ln")) and not f.get("_test") and f.get("body")]
             same = [f for f in cands if (f.get("_owner") or {}).get("self_ty") == (fn.get("_owner") or {}).get("self_ty")]
             cands = same or cands
             return cands[0] if len(cands) == 1 else None
@@ -1795,7 +1795,7 @@ def guarded_writes(body, prefix):
     return out
 
 
-def inline_helpers(fn, depth=2, max_lines=60, keep=()):
+def inline_helpers(fn, depth=2, max_lines=60, keep=(), private_only=True):
     """copy of `fn`'s body in which every call to a small helper defined in the same file is replaced by
     that helper's body (a block), its parameters replaced by the call's arguments.  Rules that walk the
     syntax tree (conditions, calls, loops) then see the same facts whether or not a maintainer extracted
@@ -1824,6 +1824,8 @@ def inline_helpers(fn, depth=2, max_lines=60, keep=()):
         callee = _same_file_fn(cur, name)
         if callee is None or callee is cur or not callee.get("body") or (callee["body"].get("le", 0) - callee["body"].get("ln", 0)) > max_lines:
             return out
+        if private_only and callee.get("vis"):
+            return out  # a public function is an interface the rules may talk about, not a local helper
         if recv is not None:
             takes_self = bool(callee["sig"]["inputs"]) and "self" in callee["sig"]["inputs"][0]
             if not takes_self or callee.get("vis") or (callee.get("_owner") or {}).get("trait"):
